@@ -299,6 +299,8 @@ def op_term(op):
 
 
 def term(c, o):
+    # C13_agree_implies_spec assumes the op sequence ends with a dump (spec_ok judges against the last dump)
+    assert c.get("conc") is not None or (c["ops"] and c["ops"][-1]["op"] == "dump"), "case does not end with a dump"
     outs = o.get("outs") or []
     if o.get("outcome") != "ok":
         outs = []
